@@ -96,10 +96,10 @@ type c20Mid struct {
 }
 
 type c20Step struct {
-	Op  string   `json:"op"` // req | done | park | cancel
-	C   int      `json:"c"`  // caller (req, cancel)
-	I   int      `json:"i"`  // image
-	R   string   `json:"r"`  // ok | err (done, park)
+	Op  string   `json:"op"`            // req | done | park | cancel
+	C   int      `json:"c"`             // caller (req, cancel)
+	I   int      `json:"i"`             // image
+	R   string   `json:"r"`             // ok | err (done, park)
 	K   int      `json:"k,omitempty"`   // park: number of receivers served before the parking point
 	Mid []c20Mid `json:"mid,omitempty"` // park: requests arriving while the broadcast is parked
 }
@@ -185,6 +185,11 @@ func (e *c20Env) pull(
 	pkg := &packagetypes.RawPackage{Files: packagetypes.Files{
 		"id":   []byte(fmt.Sprintf("i%dg%d", p.img, p.gen)),
 		"data": []byte{0},
+		// empty files as a registry pull produces them (io.ReadAll: length 0, capacity 512), a zero-capacity
+		// one and a nil one: a copy must not share the array of any of them either (append writes into it)
+		"empty":      make([]byte, 0, 512),
+		"empty-cap0": {},
+		"nil":        nil,
 	}}
 	e.mu.Lock()
 	e.origins = append(e.origins, pkg)
@@ -233,21 +238,22 @@ type c20Run struct {
 	got       map[int]*c20Ret         // all returned requests
 	probed    []int                   // request indexes (gates: negative) whose package is watched for foreign edits
 	recs      []string
-	order     [][]int                 // requests registered for the image, in registration order
-	nimg      int                     // images scripted in this scenario
+	order     [][]int                    // requests registered for the image, in registration order
+	nimg      int                        // images scripted in this scenario
 	cancelOf  map[int]context.CancelFunc // request index -> cancel function of the context it passed
-	cancelled map[int]bool            // requests whose context the scenario has cancelled
-	early     map[int]bool            // cancelled requests that returned the context's error before their pull completed
-	doneReq   map[int]bool            // requests whose pull has completed (and, in a parked broadcast, whose turn it was)
-	extraG    int                     // goroutines the harness knows to be alive besides callers and pulls
-	gates     []chan response         // gate receivers of parked broadcasts (cleanup)
+	cancelled map[int]bool               // requests whose context the scenario has cancelled
+	early     map[int]bool               // cancelled requests that returned the context's error before their pull completed
+	doneReq   map[int]bool               // requests whose pull has completed (and, in a parked broadcast, whose turn it was)
+	extraG    int                        // goroutines the harness knows to be alive besides callers and pulls
+	gates     []chan response            // gate receivers of parked broadcasts (cleanup)
 	ngate     int
-	idOwner   map[uintptr]int         // memory identity -> package it was seen in (origins: <= -1000)
-	nOrigin   int                     // prefix of env.origins already entered in idOwner
-	idAliased map[int]bool            // packages sharing memory with another receiver's package
-	idOrigin  map[int]bool            // packages sharing memory with an object the pull function returned
-	marked    map[int]bool            // watched packages that carry their owner's map write
-	inPark    bool                    // a broadcast is parked inside handleResponse
+	idOwner   map[uintptr]int // memory identity -> package it was seen in (origins: <= -1000)
+	nOrigin   int             // prefix of env.origins already entered in idOwner
+	idAliased map[int]bool    // packages sharing memory with another receiver's package
+	idOrigin  map[int]bool    // packages sharing memory with an object the pull function returned
+	idHolder  map[uintptr]int // part of a pulled object -> first receiver that was handed it
+	marked    map[int]bool    // watched packages that carry their owner's map write
+	inPark    bool            // a broadcast is parked inside handleResponse
 }
 
 // settle waits until cond() holds and no goroutine is in transit.
@@ -326,6 +332,15 @@ func (x *c20Run) watch(idx int, p *packagetypes.RawPackage) {
 				x.idAliased[idx], x.idAliased[o] = true, true
 			} else { // the receiver was handed (part of) the object the pull function returned
 				x.idOrigin[idx] = true
+				// ... and two receivers handed the same part of it share memory with each other
+				if x.idHolder == nil {
+					x.idHolder = map[uintptr]int{}
+				}
+				if h, ok := x.idHolder[id]; ok && h != idx {
+					x.idAliased[idx], x.idAliased[h] = true, true
+				} else {
+					x.idHolder[id] = idx
+				}
 			}
 		} else {
 			x.idOwner[id] = idx
@@ -527,7 +542,6 @@ func (x *c20Run) complete(i int, res string) (happened, ok bool) {
 		return true
 	})
 }
-
 
 // retire: the pull these requests wait for completes (in a parked broadcast: it is their turn) -
 // that is when the code that exists answers them, so callers that gave up early (cancelled
@@ -1326,7 +1340,6 @@ func TestVerifC20(t *testing.T) {
 	lap("many_images")
 	r.Extra["timeouts"] = c20Timeouts
 }
-
 
 // ---------------------------------------------------------------------------------------------
 // stream "park": broadcasts observed from the inside
